@@ -170,7 +170,12 @@ def main(argv=None):
             downgraded.append({'function': k, 'reason': r['reason']})
         elif r['status'] == 'failed':
             lk = lock.get(k)
-            code_changed = lk is None or lk['source_hash'] != r['info']['source_hash']
+            if lk is None:
+                # a contract that has never been discharged on the pinned tree (work in progress) decides nothing: bounded stand-in only
+                downgraded.append({'function': k, 'reason': 'contract not yet proved on the pinned tree (%d open obligations): %s' % (len(r['failed']), ', '.join(o.name for o in r['failed'][:4]))})
+                r['status'] = 'unproved'
+                continue
+            code_changed = lk['source_hash'] != r['info']['source_hash']
             for o in r['failed']:
                 rec = {'function': k, 'obligation': o.id, 'kind': o.kind, 'line': o.line, 'solver': o.output, 'source_changed': code_changed}
                 if o.kind == 'frame' and not o.name.startswith('default/'):
